@@ -87,7 +87,7 @@ class C13(Sim):
     real_vs_stub = {"engine under test, copies, shadows, fresh twins": "real fuzzylite objects",
                     "faults": "dynamic faulty subclasses of real components, None operators, in-place arity break, np.errstate raise, sys.settrace line crash",
                     "scheduler / op generator": "simulator"}
-    tiers = {"quick": (1400, 75.0), "thorough": (150000, 1500.0)}
+    tiers = {"quick": (3200, 75.0), "thorough": (400000, 1800.0)}
     chunk = 10
     expected_probes = [
         "copy_of_a_copy", "edit_copy_then_process_original", "process_other_between_inputs_and_process", "restart_after_abort",
